@@ -442,6 +442,10 @@ func c10accuracy(x *big.Rat, pct int, out string, sci bool) (bool, string) {
 		ulp = new(big.Rat)
 	}
 	slack := new(big.Rat).Mul(ulp, big.NewRat(2, 1))
+	// four correctly rounded binary64 operations (parse, percent scaling, *10^d, /10^d): 4 * 2^-53 relative
+	if rel := new(big.Rat).Mul(want, big.NewRat(1, 1<<51)); rel.Cmp(slack) > 0 {
+		slack = rel
+	}
 	var got, half *big.Rat
 	if sci {
 		m := c10sciOut.FindStringSubmatch(c10strip(out, "0123456789.E+-"))
@@ -484,6 +488,10 @@ func c10accuracy(x *big.Rat, pct int, out string, sci bool) (bool, string) {
 		return false, fmt.Sprintf("|rendered - exact| = %s > half unit %s + slack %s", diff.FloatString(25), half.FloatString(25), slack.FloatString(25))
 	}
 	return true, ""
+}
+
+func c10hasEdgeAlignment(items []nfp.Token) bool {
+	return len(items) > 0 && (items[0].TType == nfp.TokenTypeAlignment || items[len(items)-1].TType == nfp.TokenTypeAlignment)
 }
 
 // c10overflows: |x|*100^pct is not a finite binary64 (outside the property's quantifier).
@@ -647,6 +655,11 @@ func c10fmt(r *Run, c c10case) (string, bool) {
 		if plain && c10overflows(x, pct) {
 			plain = false
 			r.Stat("accuracy-skipped:beyond-binary64-range")
+		}
+		if plain && res.s != c.value && strings.Trim(res.s, " ") == c.value && c10hasEdgeAlignment(items) {
+			// the handler fell back to the stored value (e.g. exponent form other than E+00) and format padded it
+			r.Fail("fallback:alignment-padding-added", fmt.Sprintf("format(%q, %q) = %q: the stored value is returned with alignment padding", c.value, c.code, res.s), line, rep)
+			plain = false
 		}
 		if plain && res.s != c.value {
 			if ok, why := c10accuracy(x, pct, res.s, sci); !ok {
@@ -1210,7 +1223,7 @@ func runC10(r *Run, rng *Rng, replay string) {
 	thorough := r.Tier == "thorough"
 	scale := 1
 	if thorough {
-		scale = 12
+		scale = 30
 	}
 	// 0. witnesses of known findings and regression anchors (deterministic, every run)
 	for _, c := range []c10case{
@@ -1233,11 +1246,13 @@ func runC10(r *Run, rng *Rng, replay string) {
 		{true, false, "123456", "0.00E+00"},
 		{true, false, "123456789012345", "General"},
 		{true, true, "43831.75", "yyyy-mm-dd hh:mm:ss"},
+		{true, false, "0.4999999", "AM/PM h:mm:ss"},
 	} {
 		c10fmt(r, c)
 	}
 	c10dateCase(r, "110000.5", false, c10dtCodes[6])
 	c10dateCase(r, "1.5", true, c10dtCodes[6])
+	c10dateCase(r, "61.4999999", false, c10dtCodes[5])
 	// 1. printCommaSep: every length 0..48, with and without fraction / percent
 	for n := 0; n <= 48; n++ {
 		s := ""
@@ -1312,6 +1327,12 @@ func runC10(r *Run, rng *Rng, replay string) {
 			continue
 		}
 		if f, _ := strconv.ParseFloat(mag, 64); f == 0 {
+			continue
+		}
+		if _, p, _ := xl.VerifC10IsNumeric("-" + mag); p > 15 {
+			// beyond 15 digits the two signs may take different paths (isNumeric counts the minus sign);
+			// both are checked against the exact value by the accuracy oracle instead
+			r.Stat("twin-skipped:over15digits")
 			continue
 		}
 		mk := func() string {
